@@ -43,7 +43,8 @@ Definition s_few : str := [102; 101; 119]%N.
 (* map functions:
    0 lambda x: x                      1 lambda s: s[0]   (str only; "" raises)
    2 lambda x: -x   (numbers only)    3 lambda d: "many" if len(d) >= 2 else "few"  (str, dict)
-   4 lambda t: t + timedelta(seconds=10)  (datetime only)     5 lambda x: None *)
+   4 lambda t: t + timedelta(seconds=10)  (datetime only)     5 lambda x: None
+   6 lambda d: d if len(d) >= 2 else {}   (dict only: a map that looks at the WHOLE tag / field set and hands a mapping on) *)
 Definition t_menv (id : N) (v : value) : option value :=
   match id with
   | 0%N => Some v
@@ -54,7 +55,8 @@ Definition t_menv (id : N) (v : value) : option value :=
            | VDict d => Some (VStr (if Nat.leb 2 (length d) then s_many else s_few))
            | _ => None end
   | 4%N => match v with VTime t => Some (VTime (t + 10000000)%Z) | _ => None end
-  | _ => Some VNone
+  | 5%N => Some VNone
+  | _ => match v with VDict d => Some (VDict (if Nat.leb 2 (length d) then d else [])) | _ => None end
   end.
 
 (* canonical forms (odd mantissa): 0, 1, 2 = 1*2^1, 5, 10 = 5*2^1 *)
@@ -66,7 +68,10 @@ Definition n10 : num := NFin 5 1.
 (* test functions:
    0 lambda x: x == 1                 1 lambda x: x > 0   (numbers only, else raises)
    2 lambda x, a, b: a <= x <= b with (1, 5)  (numbers only)
-   3 lambda x: len(x) > 1  (str, dict)          4 lambda x: True *)
+   3 lambda x: len(x) > 1  (str, dict)          4 lambda x: True
+   5 Range(0, 1).contains   6 Range(5, 9).contains   (two bound methods of ONE class: lo <= x <= hi, numbers only) *)
+Definition n9 : num := NFin 9 0.
+Definition in_range (lo hi x : num) : bool := (num_ltb lo x || num_eqb lo x) && (num_ltb x hi || num_eqb x hi).
 Definition t_tenv (id : N) (v : value) : option bool :=
   match id with
   | 0%N => Some (value_eqb v (VNum n1))
@@ -78,7 +83,9 @@ Definition t_tenv (id : N) (v : value) : option bool :=
            | VStr s => Some (Nat.ltb 1 (length s))
            | VDict d => Some (Nat.ltb 1 (length d))
            | _ => None end
-  | _ => Some true
+  | 4%N => Some true
+  | 5%N => match v with VNum x => Some (in_range n0 n1 x) | _ => None end
+  | _ => match v with VNum x => Some (in_range n5 n9 x) | _ => None end
   end.
 
 Definition twinE : env := mkEnv t_menv t_tenv t_rmatch t_rsearch.
@@ -111,7 +118,7 @@ Definition t_cmeas (id : N) (m : str) : option str :=
   | _ => if str_eqb m s_m1 then None else Some (m ++ s_y)
   end.
 (* tags: 0 {"k": "new"}   1 {"k": 1} (invalid)   2 {}   3 raises if "bad" in d else {"k": "new"}
-         4 dict(d)   5 {"n": None} *)
+         4 dict(d)   5 {"n": None}   6 d["k"] = "new"; return d   (the argument itself, edited in place) *)
 Definition t_ctags (id : N) (d : list (str * option str)) : option (list (str * option str)) :=
   match id with
   | 0%N => Some [(s_k, Some s_new)]
@@ -119,12 +126,13 @@ Definition t_ctags (id : N) (d : list (str * option str)) : option (list (str * 
   | 2%N => Some []
   | 3%N => if dhas s_bad d then None else Some [(s_k, Some s_new)]
   | 4%N => Some d
-  | _ => Some [(s_n, None)]
+  | 5%N => Some [(s_n, None)]
+  | _ => Some (dset s_k (Some s_new) d)
   end.
 Definition s_fa : str := [97]%N.
 Definition s_fb : str := [98]%N.
 (* fields: 0 {"a": 10}   1 {"a": "str"} (invalid)   2 {}   3 raises if d.get("a") == 2 else {"a": 10}
-           4 {"b": None}   5 {"a": True} (invalid: bool) *)
+           4 {"b": None}   5 {"a": True} (invalid: bool)   6 d["a"] = 10; return d   (the argument itself, edited in place) *)
 Definition t_cfields (id : N) (d : list (str * option num)) : option (list (str * option num)) :=
   match id with
   | 0%N => Some [(s_fa, Some n10)]
@@ -134,6 +142,7 @@ Definition t_cfields (id : N) (d : list (str * option num)) : option (list (str 
            | Some (Some x) => if num_eqb x n2 then None else Some [(s_fa, Some n10)]
            | _ => Some [(s_fa, Some n10)] end
   | 4%N => Some [(s_fb, None)]
-  | _ => None
+  | 5%N => None
+  | _ => Some (dset s_fa (Some n10) d)
   end.
 Definition twinC : cenv := mkCenv t_ctime t_cmeas t_ctags t_cfields.
